@@ -61,7 +61,8 @@ vars == <<disk, cache, results, steps>>
 (* The code.                                                                *)
 
 (* find_immutables_dir: first directory named "immutable" in WalkDir order   *)
-(* (depth first, children in readdir order; the root itself comes first)     *)
+(* (depth first, children in readdir order; the root itself comes first);    *)
+(* with the fix: the root if it is named "immutable", else its direct child  *)
 FoundDir(d) ==
     IF d.entry = "immdir" \/ FindPrefersDirectChild \/ d.decoy # "first"
     THEN "real" ELSE "decoy"
